@@ -1,14 +1,537 @@
-//! C04 — not implemented yet (stub).
-use crate::report::{Cfg, Meta, Report};
+//! C04 — the AIR rejects any deviation from an operation's defined effect.
+//!
+//! F-cell fault injection: one cell of one honest transition is replaced by wrong values and the
+//! REAL `ProcessorAir::evaluate_transition` (+ the aux constraint for `b_range`) is evaluated on
+//! that single frame; for an *enforced* cell some constraint must become non-zero.
+//!
+//! The enforced-set table below is written from docs/src/design/stack/*.md, chiplets/*.md and
+//! range.md (which cells an operation determines), not from the constraint code.
+
+use crate::case::{AsmOutcome, Case, ExecOutcome};
+use crate::gen::{gen_case, GenCfg};
+use crate::props::c03::{rand_quad, Quad};
+use crate::report::{merge_all, Cfg, Meta, Report};
+use crate::tair::{make_air, op_name, PeriodicCtx};
+use crate::tview::*;
+use crate::util::{par_map, rng_for, Rng8, P};
+use air::ProcessorAir;
+use processor::ExecutionTrace;
+use rand::Rng;
+use serde_json::json;
+use vm_core::{Felt, FieldElement, StarkField};
+use winter_air::{Air, AuxTraceRandElements, EvaluationFrame};
+use winter_prover::{matrix::ColMatrix, Trace};
 
 pub fn meta() -> Meta {
-    Meta { level: "exploration", rule: "stub".into(), assumptions: vec![] }
+    Meta {
+        level: "fault_enumeration",
+        rule: "each evaluation = one single-cell mutant: (honest trace row r, cell, role next|cur, wrong value) evaluated by the real evaluate_transition on the frame (r, r+1); wrong values = v+1, v-1, 0, 1, 2v, v+2^16, v+2^32, -v, neighbouring cells' values and 12 uniformly random elements; a cell escapes if some wrong value leaves all 181 main constraints (and the b_range aux constraint for range-checker cells) at zero; distinct = distinct (operation or chiplet-row kind, cell, role, depth regime, killed|escaped)".into(),
+        assumptions: vec![
+            "single-cell, single-transition alterations only (the statement's quantifier); coordinated multi-cell alterations and the decoder columns (unconstrained in this AIR version) are out of scope".into(),
+            "each constraint has degree <= 9 in the mutated cell, so if 12 random wrong values are all detected at most 9 of 2^64 values can escape that frame".into(),
+            "the enforced-set table is the trusted base; cells the docs declare prover-chosen or bus-delivered are classified free/outside and only reported in the evidence".into(),
+        ],
+    }
 }
 
-pub fn run(_cfg: &Cfg) -> Report {
-    let mut rep = Report::new();
-    rep.inconclusive("not-implemented");
+#[derive(Clone, Copy, PartialEq, Eq, Debug)]
+pub enum Class {
+    /// the docs say the constraint system determines this cell: an escape is a violation
+    Enforced,
+    /// prover-chosen / delivered through a bus or virtual table in this AIR version
+    Free,
+    /// operation class not listed in the property statement (I/O, crypto, CALLER, ...)
+    Outside,
+}
+
+const LEFT_SHIFT: &[&str] = &[
+    "ASSERT", "EQ", "ADD", "MUL", "AND", "OR", "U32AND", "U32XOR", "DROP", "CSWAP", "CSWAPW", "MLOADW", "MSTORE", "MSTOREW",
+    "FMPUPDATE", "U32ADD3", "U32MADD", "SPLIT", "LOOP", "REPEAT", "FRIE2F4",
+];
+const RIGHT_SHIFT: &[&str] = &["PAD", "DUP0", "DUP1", "DUP2", "DUP3", "DUP4", "DUP5", "DUP6", "DUP7", "DUP9", "DUP11", "DUP13", "DUP15", "ADVPOP", "SDEPTH", "CLK", "U32SPLIT", "PUSH"];
+/// operation classes outside the statement (I/O other than depth/clock, crypto, CALLER)
+const OUTSIDE_OPS: &[&str] = &[
+    "PUSH", "ADVPOP", "ADVPOPW", "MLOAD", "MLOADW", "MSTORE", "MSTOREW", "MSTREAM", "PIPE", "HPERM", "MPVERIFY", "MRUPDATE", "FRIE2F4", "RCOMBBASE", "CALLER",
+];
+
+fn is_left_shift(op: &str, tv: &TV, row: usize) -> bool {
+    if op == "END" {
+        // END of a loop pops the loop condition (is_loop flag in hasher state column 5)
+        return tv.get(HASHER + 5, row) == 1;
+    }
+    LEFT_SHIFT.contains(&op)
+}
+
+/// Class of stack cell `s_i'` (role next) for the operation at `row`.
+fn stack_next_class(op: &str, i: usize, tv: &TV, row: usize) -> Class {
+    if OUTSIDE_OPS.contains(&op) {
+        return Class::Outside;
+    }
+    let depth = tv.get(B0, row);
+    // results delivered through the bitwise bus
+    if (op == "U32AND" || op == "U32XOR") && i == 0 {
+        return Class::Free;
+    }
+    // s15' refilled from the overflow table on a left shift at depth > 16
+    if i == 15 && is_left_shift(op, tv, row) && depth > 16 {
+        return Class::Free;
+    }
+    // EQZ / INV style results: fully determined given the helper; EQ: s0' determined
+    Class::Enforced
+}
+
+/// user-op helper registers (decoder hasher columns h2.. = user helpers 0..5) validated on the
+/// current row for u32 operations (docs/src/design/stack/u32_ops.md) and EQ/EQZ/EXPACC (field_ops.md)
+fn helper_cur_class(op: &str, k: usize, tv: &TV, row: usize) -> Option<Class> {
+    let s0 = tv.get(STACK, row);
+    let s1 = tv.get(STACK + 1, row);
+    match op {
+        "U32ADD" | "U32ADD3" => (k < 3).then_some(Class::Enforced),
+        "U32SUB" => (k < 2).then_some(Class::Enforced),
+        "U32MUL" | "U32MADD" | "U32SPLIT" => {
+            if k < 4 {
+                Some(Class::Enforced)
+            } else if k == 4 {
+                // m certifies that the 64-bit value is a canonical field element:
+                // (1 - m * (2^32 - 1 - hi)) * lo = 0 leaves m free when lo = 0 (u32_ops.md)
+                let lo = tv.get(HASHER + 2, row) + (tv.get(HASHER + 3, row) << 16);
+                Some(if lo != 0 { Class::Enforced } else { Class::Free })
+            } else {
+                None
+            }
+        }
+        "U32DIV" | "U32ASSERT2" => (k < 4).then_some(Class::Enforced),
+        "EXPACC" => (k == 0).then_some(Class::Enforced),
+        // the helper is the inverse of the difference: determined when operands differ,
+        // prover-chosen when they are equal
+        "EQ" => (k == 0).then_some(if s0 != s1 { Class::Enforced } else { Class::Free }),
+        "EQZ" => (k == 0).then_some(if s0 != 0 { Class::Enforced } else { Class::Free }),
+        _ => None,
+    }
+}
+
+struct Frame {
+    f: EvaluationFrame<Felt>,
+    periodic: Vec<Felt>,
+    aux: Option<(EvaluationFrame<Quad>, AuxTraceRandElements<Quad>)>,
+}
+
+struct Engine<'a> {
+    air: &'a ProcessorAir,
+    ev: Vec<Felt>,
+    aev: Vec<Quad>,
+}
+
+impl<'a> Engine<'a> {
+    /// returns indices of non-zero constraints (main: idx, aux: 1000+idx)
+    fn eval(&mut self, fr: &Frame, out: &mut Vec<usize>) {
+        out.clear();
+        self.ev.iter_mut().for_each(|e| *e = Felt::ZERO);
+        self.air.evaluate_transition(&fr.f, &fr.periodic, &mut self.ev);
+        for (i, e) in self.ev.iter().enumerate() {
+            if *e != Felt::ZERO {
+                out.push(i);
+            }
+        }
+        if let Some((af, are)) = &fr.aux {
+            self.aev.iter_mut().for_each(|e| *e = Quad::ZERO);
+            self.air.evaluate_aux_transition(&fr.f, af, &fr.periodic, are, &mut self.aev);
+            for (i, e) in self.aev.iter().enumerate() {
+                if *e != Quad::ZERO {
+                    out.push(1000 + i);
+                }
+            }
+        }
+    }
+}
+
+fn wrong_values(v: u64, neighbours: &[u64], rng: &mut Rng8, skip: &dyn Fn(u64) -> bool) -> Vec<(u64, &'static str)> {
+    let f = |x: u128| (x % P as u128) as u64;
+    let mut c: Vec<(u64, &'static str)> = vec![
+        (f(v as u128 + 1), "v+1"),
+        (f(v as u128 + P as u128 - 1), "v-1"),
+        (0, "0"),
+        (1, "1"),
+        (f(2 * v as u128), "2v"),
+        (f(v as u128 + (1 << 16)), "v+2^16"),
+        (f(v as u128 + (1u128 << 32)), "v+2^32"),
+        (f(P as u128 - v as u128), "-v"),
+    ];
+    for n in neighbours {
+        c.push((*n, "neighbour"));
+    }
+    for _ in 0..12 {
+        c.push((rng.gen::<u64>() % P, "random"));
+    }
+    c.retain(|(x, _)| *x != v && !skip(*x));
+    c
+}
+
+#[derive(Clone, Copy, PartialEq)]
+enum Role {
+    Next,
+    Cur,
+}
+
+/// Mutates one cell, returns (killed_all, escaped value kinds, killers)
+#[allow(clippy::too_many_arguments)]
+fn mutate_cell(
+    eng: &mut Engine,
+    fr: &mut Frame,
+    col: usize,
+    role: Role,
+    neighbours: &[u64],
+    rng: &mut Rng8,
+    skip: &dyn Fn(u64) -> bool,
+    killers: &mut [u64],
+    n_mutants: &mut u64,
+) -> Vec<(u64, &'static str)> {
+    let orig = match role {
+        Role::Next => fr.f.next()[col],
+        Role::Cur => fr.f.current()[col],
+    };
+    let mut escapes = vec![];
+    let mut nz = Vec::with_capacity(16);
+    for (w, kind) in wrong_values(orig.as_int(), neighbours, rng, skip) {
+        match role {
+            Role::Next => fr.f.next_mut()[col] = Felt::new(w),
+            Role::Cur => fr.f.current_mut()[col] = Felt::new(w),
+        }
+        eng.eval(fr, &mut nz);
+        *n_mutants += 1;
+        if nz.is_empty() {
+            escapes.push((w, kind));
+        } else {
+            for i in &nz {
+                let k = if *i >= 1000 { 181 + (i - 1000) } else { *i };
+                if k < killers.len() {
+                    killers[k] += 1;
+                }
+            }
+        }
+    }
+    match role {
+        Role::Next => fr.f.next_mut()[col] = orig,
+        Role::Cur => fr.f.current_mut()[col] = orig,
+    }
+    escapes
+}
+
+pub struct Outcome {
+    pub killers: Vec<u64>,
+    pub mutants: u64,
+}
+
+fn record(
+    rep: &mut Report,
+    class: Class,
+    kind: &str,
+    cell: &str,
+    role: &str,
+    regime: &str,
+    escapes: &[(u64, &'static str)],
+    case: &Case,
+    row: usize,
+) {
+    let key = format!("{kind}/{cell}/{role}");
+    let killed = escapes.is_empty();
+    rep.distinct_key(&format!("{key}|{regime}|{killed}"));
+    match (class, killed) {
+        (Class::Enforced, true) => rep.count("enforced_killed", &key),
+        (Class::Enforced, false) => {
+            rep.count("enforced_escaped", &key);
+            let kinds: Vec<&str> = escapes.iter().map(|e| e.1).collect();
+            rep.violation(
+                format!("escape/{key}"),
+                format!("row {row} ({kind}, {regime}): {cell} ({role}) replaced by {:?} ({:?}) leaves every transition constraint at zero", escapes[0].0, kinds),
+                json!({"kind": "cell", "case": case.to_json(), "row": row, "cell": cell, "role": role, "value": escapes[0].0.to_string()}),
+            );
+        }
+        (Class::Free, true) => rep.count("free_killed", &key),
+        (Class::Free, false) => rep.count("free_escaped", &key),
+        (Class::Outside, true) => rep.count("outside_statement_killed", &key),
+        (Class::Outside, false) => rep.count("outside_statement_escaped", &key),
+    }
+}
+
+/// Runs the mutation battery over (a sample of) the rows of one honest trace.
+pub fn mutate_trace(case: &Case, trace: &mut ExecutionTrace, rng: &mut Rng8, rep: &mut Report, row_prob: f64, only_row: Option<usize>) -> Outcome {
+    let si = case.stack_inputs();
+    let rands = rand_quad(rng);
+    let aux: ColMatrix<Quad> = match crate::util::catch(|| trace.build_aux_segment::<Quad>(&[], &rands)) {
+        Ok(Some(a)) => a,
+        _ => {
+            rep.count("skipped", "aux-build-failed");
+            return Outcome { killers: vec![0; 182], mutants: 0 };
+        }
+    };
+    let air = make_air(trace, &si);
+    let pc = PeriodicCtx::new(&air);
+    let tv = TV::new(trace);
+    let len = trace.length();
+    let mut eng = Engine {
+        air: &air,
+        ev: vec![Felt::ZERO; air.context().num_main_transition_constraints()],
+        aev: vec![Quad::ZERO; air.context().num_aux_transition_constraints()],
+    };
+    let mut killers = vec![0u64; 182];
+    let mut mutants = 0u64;
+    let mut nz = vec![];
+    let no_skip = |_: u64| false;
+    let mut are = AuxTraceRandElements::new();
+    are.add_segment_elements(rands.clone());
+
+    for row in 0..len - 2 {
+        if let Some(r) = only_row {
+            if r != row {
+                continue;
+            }
+        } else if !rng.gen_bool(row_prob) {
+            continue;
+        }
+        let mut fr = Frame { f: EvaluationFrame::new(70), periodic: pc.values_at(row), aux: None };
+        trace.read_main_frame(row, &mut fr.f);
+        // aux frame (b_range is aux column 4)
+        let mut af = EvaluationFrame::<Quad>::new(7);
+        for c in 0..7 {
+            af.current_mut()[c] = aux.get(c, row);
+            af.next_mut()[c] = aux.get(c, row + 1);
+        }
+        fr.aux = Some((af, {
+            let mut a = AuxTraceRandElements::new();
+            a.add_segment_elements(rands.clone());
+            a
+        }));
+        // the honest frame must be clean, otherwise this row is C03's business
+        eng.eval(&fr, &mut nz);
+        if !nz.is_empty() {
+            rep.count("skipped", "honest-frame-not-clean");
+            continue;
+        }
+
+        // ---------------------------------------------------------------- stack / system side
+        if row < tv.cycles {
+            let opc = tv.op(row);
+            let op = op_name(opc);
+            let deep = tv.get(B0, row) > 16;
+            let regime = if deep { "depth>16" } else { "depth=16" };
+            rep.count("rows_mutated", &op);
+            for i in 0..16 {
+                let class = stack_next_class(&op, i, &tv, row);
+                let nb = [tv.get(STACK + (i + 1) % 16, row + 1), tv.get(STACK + (i + 15) % 16, row + 1), tv.get(STACK + i, row)];
+                let esc = mutate_cell(&mut eng, &mut fr, STACK + i, Role::Next, &nb, rng, &no_skip, &mut killers, &mut mutants);
+                record(rep, class, &op, &format!("s{i}"), "next", regime, &esc, case, row);
+            }
+            // depth bookkeeping b0' (restored from the block-stack table at the END of a call)
+            {
+                let end_of_call = op == "END" && (tv.get(HASHER + 6, row) == 1 || tv.get(HASHER + 7, row) == 1);
+                let class = if end_of_call { Class::Free } else { Class::Enforced };
+                let esc = mutate_cell(&mut eng, &mut fr, B0, Role::Next, &[], rng, &no_skip, &mut killers, &mut mutants);
+                record(rep, class, &op, "b0", "next", regime, &esc, case, row);
+            }
+            // b1' = clk on right shifts (the left-shift value comes from the overflow table)
+            {
+                let class = if RIGHT_SHIFT.contains(&op.as_str()) { Class::Enforced } else { Class::Free };
+                let esc = mutate_cell(&mut eng, &mut fr, B1, Role::Next, &[], rng, &no_skip, &mut killers, &mut mutants);
+                record(rep, class, &op, "b1", "next", regime, &esc, case, row);
+            }
+            // h0 = 1/(b0-16) when b0 != 16 (current row)
+            {
+                let class = if deep { Class::Enforced } else { Class::Free };
+                let esc = mutate_cell(&mut eng, &mut fr, H0, Role::Cur, &[], rng, &no_skip, &mut killers, &mut mutants);
+                record(rep, class, &op, "h0", "cur", regime, &esc, case, row);
+            }
+            // clk' always
+            {
+                let esc = mutate_cell(&mut eng, &mut fr, CLK, Role::Next, &[], rng, &no_skip, &mut killers, &mut mutants);
+                record(rep, Class::Enforced, &op, "clk", "next", regime, &esc, case, row);
+            }
+            // fmp' for FMPUPDATE (elsewhere undocumented -> outside)
+            {
+                let class = if op == "FMPUPDATE" { Class::Enforced } else { Class::Outside };
+                let esc = mutate_cell(&mut eng, &mut fr, FMP, Role::Next, &[], rng, &no_skip, &mut killers, &mut mutants);
+                record(rep, class, &op, "fmp", "next", regime, &esc, case, row);
+            }
+            // helper registers (decoder columns h2..h7 = user helpers 0..5), current row
+            for k in 0..6 {
+                if let Some(class) = helper_cur_class(&op, k, &tv, row) {
+                    let esc = mutate_cell(&mut eng, &mut fr, HASHER + 2 + k, Role::Cur, &[], rng, &no_skip, &mut killers, &mut mutants);
+                    record(rep, class, &op, &format!("helper{k}"), "cur", regime, &esc, case, row);
+                }
+            }
+        }
+
+        // ---------------------------------------------------------------- range checker
+        {
+            let v = tv.get(RANGE_V, row);
+            let vn = tv.get(RANGE_V, row + 1);
+            // legal steps: v' - v in {0, 1, 3, 9, ..., 2187}: those candidates are equivalent mutants
+            let legal = move |x: u64| {
+                let d = x.wrapping_sub(v);
+                [0u64, 1, 3, 9, 27, 81, 243, 729, 2187].contains(&d)
+            };
+            let kind = if vn == v { "range-repeat" } else { "range-step" };
+            rep.count("rows_mutated", kind);
+            let esc = mutate_cell(&mut eng, &mut fr, RANGE_V, Role::Next, &[], rng, &legal, &mut killers, &mut mutants);
+            record(rep, Class::Enforced, kind, "v", "next", "-", &esc, case, row);
+            // multiplicity: enforced through the b_range LogUp aux constraint
+            let esc = mutate_cell(&mut eng, &mut fr, RANGE_M, Role::Cur, &[], rng, &no_skip, &mut killers, &mut mutants);
+            record(rep, Class::Enforced, kind, "m", "cur", "-", &esc, case, row);
+        }
+
+        // ---------------------------------------------------------------- chiplets
+        let ck = tv.chiplet_kind(row);
+        let ckn = tv.chiplet_kind(row + 1);
+        match ck {
+            "hasher" if ckn == "hasher" => {
+                let pos = row % 8;
+                let kind = format!("hasher-row{pos}");
+                rep.count("rows_mutated", &kind);
+                // rows 0..6 of a cycle: the next row is the permutation round applied to this one
+                for c in 0..12 {
+                    let class = if pos < 7 { Class::Enforced } else { Class::Free };
+                    let esc = mutate_cell(&mut eng, &mut fr, CHIP + 4 + c, Role::Next, &[], rng, &no_skip, &mut killers, &mut mutants);
+                    record(rep, class, &kind, &format!("state{c}"), "next", "-", &esc, case, row);
+                }
+            }
+            "bitwise" if ckn == "bitwise" => {
+                let pos = row % 8;
+                let kind = format!("bitwise-row{}", if pos == 7 { "7" } else { "0-6" });
+                rep.count("rows_mutated", &kind);
+                // bitwise columns: CHIP+2 selector, +3 a, +4 b, +5..+8 a bits, +9..+12 b bits, +13 prev output, +14 output
+                for c in 0..8 {
+                    // decomposition bits of the current row must be binary
+                    let binary = |x: u64| x <= 1;
+                    let esc = mutate_cell(&mut eng, &mut fr, CHIP + 5 + c, Role::Cur, &[], rng, &binary, &mut killers, &mut mutants);
+                    record(rep, Class::Enforced, &kind, &format!("bit{c}"), "cur", "-", &esc, case, row);
+                }
+                // the output aggregates the previous output and this row's bits (validated on this row)
+                {
+                    let esc = mutate_cell(&mut eng, &mut fr, CHIP + 14, Role::Cur, &[], rng, &no_skip, &mut killers, &mut mutants);
+                    record(rep, Class::Enforced, &kind, "output", "cur", "-", &esc, case, row);
+                }
+                if pos < 7 {
+                    for (c, name) in [(3usize, "a"), (4, "b"), (13, "prev_output")] {
+                        let esc = mutate_cell(&mut eng, &mut fr, CHIP + c, Role::Next, &[], rng, &no_skip, &mut killers, &mut mutants);
+                        record(rep, Class::Enforced, &kind, name, "next", "-", &esc, case, row);
+                    }
+                }
+            }
+            "memory" => {
+                // (a) the current row on its own: a first-access read (selectors [1,0]) must show zeros
+                let cur_init_read = tv.get(CHIP + 3, row) == 1 && tv.get(CHIP + 4, row) == 0;
+                if cur_init_read {
+                    let kind = if ckn == "memory" { "memory-init-read" } else { "memory-init-read-last-row" };
+                    rep.count("rows_mutated", kind);
+                    for c in 0..4 {
+                        let esc = mutate_cell(&mut eng, &mut fr, CHIP + 8 + c, Role::Cur, &[], rng, &no_skip, &mut killers, &mut mutants);
+                        record(rep, Class::Enforced, kind, &format!("v{c}"), "cur", "-", &esc, case, row);
+                    }
+                }
+                // (b) the next row relative to this one
+                if ckn == "memory" {
+                    let same_ctx = tv.get(CHIP + 5, row) == tv.get(CHIP + 5, row + 1);
+                    let same_addr = same_ctx && tv.get(CHIP + 6, row) == tv.get(CHIP + 6, row + 1);
+                    let next_sel = (tv.get(CHIP + 3, row + 1), tv.get(CHIP + 4, row + 1));
+                    let kind = format!(
+                        "memory-{}-{}",
+                        if !same_ctx { "new-ctx" } else if !same_addr { "new-addr" } else { "same-addr" },
+                        match next_sel {
+                            (1, 1) => "copy-read",
+                            (1, _) => "init-read",
+                            _ => "write",
+                        }
+                    );
+                    rep.count("rows_mutated", &kind);
+                    for (c, name) in [(12usize, "d0"), (13, "d1"), (14, "d_inv")] {
+                        // d_inv is the inverse of the context / address delta: prover-chosen when
+                        // neither changes (memory.md: n0 = n1 = 0 for any t)
+                        let class = if name == "d_inv" && same_addr { Class::Free } else { Class::Enforced };
+                        let esc = mutate_cell(&mut eng, &mut fr, CHIP + c, Role::Next, &[], rng, &no_skip, &mut killers, &mut mutants);
+                        record(rep, class, &kind, name, "next", "-", &esc, case, row);
+                    }
+                    for c in 0..4 {
+                        // a copy read repeats the previous row's values; written values arrive through
+                        // the bus; first-access reads are validated on their own row (a)
+                        let class = if next_sel == (1, 1) { Class::Enforced } else { Class::Free };
+                        let esc = mutate_cell(&mut eng, &mut fr, CHIP + 8 + c, Role::Next, &[], rng, &no_skip, &mut killers, &mut mutants);
+                        record(rep, class, &kind, &format!("v{c}"), "next", "-", &esc, case, row);
+                    }
+                    // the selectors of the next row: s1' = 1 exactly for a read of the same (ctx, addr)
+                    let esc = mutate_cell(&mut eng, &mut fr, CHIP + 4, Role::Next, &[], rng, &no_skip, &mut killers, &mut mutants);
+                    record(rep, Class::Enforced, &kind, "sel1", "next", "-", &esc, case, row);
+                }
+            }
+            _ => {}
+        }
+    }
+    let _ = are;
+    Outcome { killers, mutants }
+}
+
+pub fn run(cfg: &Cfg) -> Report {
+    let shards = 64;
+    let per = cfg.n(5, 60);
+    let reports = par_map(shards, |sh| {
+        let mut rng = rng_for(cfg.seed, "C04", sh as u64);
+        let mut rep = Report::new();
+        let mut killers = vec![0u64; 182];
+        for i in 0..per {
+            let size = rng.gen_range(4..40);
+            let mut gc = GenCfg::random(&mut rng, size);
+            if i % 3 == 0 {
+                gc.mem = true;
+                gc.crypto = true;
+            }
+            let case = gen_case(&mut rng, &gc);
+            let prog = match case.assemble() {
+                AsmOutcome::Ok(p) => p,
+                _ => continue,
+            };
+            let mut trace = match case.execute(&prog) {
+                ExecOutcome::Ok(t) => t,
+                _ => continue,
+            };
+            if trace.length() > 4096 {
+                continue;
+            }
+            rep.count("traces", "mutated");
+            let prob = (300.0 / trace.length() as f64).min(1.0);
+            let out = mutate_trace(&case, &mut trace, &mut rng, &mut rep, prob, None);
+            rep.evals(out.mutants);
+            for (i, k) in out.killers.iter().enumerate() {
+                killers[i] += k;
+            }
+            if rep.samples.len() < 2 {
+                rep.sample(json!({"src": crate::report::truncate(&case.src, 200), "trace_len": trace.length(), "mutants": out.mutants}));
+            }
+        }
+        for (i, k) in killers.iter().enumerate() {
+            if *k > 0 {
+                rep.count_n("constraint_kills", &format!("{}{}", if i >= 181 { "aux" } else { "main" }, if i >= 181 { i - 181 } else { i }), *k);
+            }
+        }
+        rep
+    });
+    let mut rep = merge_all(reports);
+    let never: Vec<usize> = (0..181).filter(|i| rep.get_count("constraint_kills", &format!("main{i}")) == 0).collect();
+    rep.note("constraints_that_never_killed", json!(never));
+    rep.note("enforced_pairs_killed", json!(rep.hist_len("enforced_killed")));
+    rep.floor(rep.hist_len("enforced_killed") >= 600, "at-least-600-enforced-(op,cell)-pairs-mutated");
+    rep.floor(rep.hist_len("rows_mutated") >= 80, "at-least-80-row-kinds");
+    rep.floor(never.len() <= 40, "at-least-141-of-181-constraints-killed-a-mutant");
     rep
 }
 
-pub fn replay(_v: &serde_json::Value, _rep: &mut Report) {}
+pub fn replay(v: &serde_json::Value, rep: &mut Report) {
+    if let Some(case) = v.get("case").and_then(Case::from_json) {
+        let row = v.get("row").and_then(|r| r.as_u64()).map(|r| r as usize);
+        if let AsmOutcome::Ok(prog) = case.assemble() {
+            if let ExecOutcome::Ok(mut trace) = case.execute(&prog) {
+                let mut rng = rng_for(0, "C04-replay", 0);
+                let out = mutate_trace(&case, &mut trace, &mut rng, rep, 1.0, row);
+                rep.evals(out.mutants);
+            }
+        }
+    }
+}
